@@ -117,8 +117,13 @@ def rule_client_pairing(repo, chk):
         path = None
         for h in broad:
             reg = pat.region(gd, 'except', h.ast)
-            told = [m for m in reg if m.kind in ('stmt', 'test') and m.ast is not None and any(call_name(c) == dh.params[2] for c in calls_in(m.ast))]
-            p = pat.escapes_region(gd, h, reg, lambda m: m in told, exits=('exit',))
+            # (the callback itself, or a local closure that calls it)
+            tellers = {dh.params[2]} | {nm for nm, nf in dh.nested.items() if any(call_name(c) == dh.params[2] for c in calls_in(nf.node))}
+            told = [m for m in reg if m.kind in ('stmt', 'test') and m.ast is not None and any(call_name(c) in tellers for c in calls_in(m.ast))]
+            # (the TLS layer asking for the handshake to be repeated is not a failure)
+            again = pat.test_edge(lambda tt, pol: (lambda fc: fc is not None and fc[1] in ('==', 'in') and 'SSL_ERROR_WANT' in fc[2])(pat.compare_fact(tt, pol)))
+            no_cb = pat.test_edge(lambda tt, pol: pol == 'F' and src(tt).replace(' ', '') in (f'callable({dh.params[2]})', dh.params[2], f'{dh.params[2]}isnotNone'))
+            p = pat.escapes_region(gd, h, reg, lambda m: m in told, exits=('exit',), avoid_edge=lambda e2: again(e2) or no_cb(e2))
             if p is not None or not told:
                 ok, path = False, p
         chk.ob('h', dh.ref, 'a handshake that fails with any OSError (the peer resets or closes the connection during it), not only with an SSLError, is reported to the '
@@ -365,6 +370,8 @@ def _run(repo, chk):
     # client side: one disconnected per connected
     ccl = repo.func(SOCKETS, 'Client._close')
     chk.touch(ccl)
+    from .common import snapshot_view
+    ccl = snapshot_view(ccl)        # (`sock = self._sock` … `sock.close()`)
     gc = ccl.cfg()
     dd = [n for n in gc.nodes if n.kind == 'stmt' and pat.fires(n.ast, 'disconnected')]
     need(dd, 'C12.b: Client._close never fires disconnected')
